@@ -33,7 +33,7 @@ ASSUMPTIONS = [
 ]
 PROBES = ["faulty_link_before_injection", "threaded.runs", "threaded.preempted_in_proxy", "kind.error", "kind.rstack", "kind.silent", "kind.lost", "kind.eof", "kind.close", "workload.idle", "workload.one", "workload.queued",
           "workload.reset", "workload.startup", "reported", "reported_twice", "silent_detected_by_retries", "silent_during_reset_timeout",
-          "data_received_raised", "inject_at_timer_deadline", "calls_in_progress_at_injection", "caller_cancelled_after_injection", "failure_before_registration", "command_after_report_raised_other_than_ezsp_error", "sched.batch", "sched.reorder", "sched.join"]
+          "data_received_raised", "inject_at_timer_deadline", "calls_in_progress_at_injection", "caller_cancelled_after_injection", "failure_before_registration", "registry_history.overlap", "registry_history.churn", "registry_history.both", "command_after_report_raised_other_than_ezsp_error", "sched.batch", "sched.reorder", "sched.join"]
 
 WORKLOADS = ("idle", "one", "queued", "reset", "startup")
 KINDS = ("error", "rstack", "silent", "lost", "eof", "close")
@@ -67,6 +67,10 @@ def plan(tier):
                 if kind in ("error", "rstack", "lost", "eof", "close") and w in ("idle", "one") and at in pts[:3]:
                     # the same failure after an earlier one that went unheard (before the application registered)
                     sweeps.append(("inject", {"workload": w, "kind": kind, "code": codes[0], "at": at, "sched": False, "prefail": True}))
+                if kind != "silent" and w in ("idle", "one") and at in pts[1:3]:
+                    # the same failure after the callback registry went through a history around the application's registration
+                    for h in HISTORIES[1:]:
+                        sweeps.append(("inject", {"workload": w, "kind": kind, "code": codes[0], "at": at, "sched": False, "hist": h}))
                 if kind == "silent" and w in ("idle", "one", "queued"):
                     # the callers give up (are cancelled) while the link layer is still retrying: the failure must be reported all the same
                     for ca in (2.0, 12.0):
@@ -85,7 +89,7 @@ def plan(tier):
     return {
         "sweeps": sweeps,
         "exhaustive": f"failure kind x code x {npts} injection instants (just before/after every wire event of the 5 scripted workloads), each event in its own loop iteration",
-        "random": [("random", {}, 3), ("threaded", {}, 1), ("faulty", {}, 1), ("soak", {}, 1)],
+        "random": [("random", {}, 3), ("history", {}, 1), ("threaded", {}, 1), ("faulty", {}, 1), ("soak", {}, 1)],
         "runs": 1900 if tier == "quick" else None,
         "budget_s": 60 if tier == "quick" else 900,
         "batch": 25,
@@ -104,7 +108,7 @@ def run(scenario, params, tape, detail=False):
         return run_threaded_one(params, tape, detail)
     if scenario == "inject":
         return run_one(params["workload"], params["kind"], params["code"], params["at"], tape, params.get("sched", True), detail, cancel_after=params.get("cancel_after"),
-                       prefail=params.get("prefail", False), rst_delay=params.get("rst_delay", 0.3))
+                       prefail=params.get("prefail", False), rst_delay=params.get("rst_delay", 0.3), hist=params.get("hist"))
     w = WORKLOADS[tape.draw(len(WORKLOADS), "workload")]
     kind = KINDS[tape.draw(len(KINDS), "kind")]
     code = None
@@ -112,14 +116,21 @@ def run(scenario, params, tape, detail=False):
         code = ERR_CODES[tape.draw(len(ERR_CODES), "code")]
     elif kind == "rstack":
         code = RST_CODES[tape.draw(len(RST_CODES), "code")]
-    prefail = kind != "silent" and scenario != "faulty" and tape.draw(5, "prefail") == 4
-    return run_one(w, kind, code, ("draw",), tape, True, detail, faulty=(scenario == "faulty"), prefail=prefail)
+    prefail = kind != "silent" and scenario not in ("faulty", "history") and tape.draw(5, "prefail") == 4
+    hist = HISTORIES[1 + tape.draw(len(HISTORIES) - 1, "hist")] if scenario == "history" else None
+    return run_one(w, kind, code, ("draw",), tape, True, detail, faulty=(scenario == "faulty"), prefail=prefail, hist=hist)
 
 
 CANCEL_AFTER = (0.3, 1.0, 2.5, 6.0, 11.0, 13.0)
+# what happened to EZSP's callback registry around the moment the application registered ("once an application callback is registered"
+# must not depend on who else registered or unregistered before, meanwhile or afterwards):
+#   overlap  the application registers while a scan (a list command holding a temporary callback) is running; scans follow
+#   churn    other parties register and unregister callbacks before and after the application does
+#   both     overlap, then churn
+HISTORIES = (None, "overlap", "churn", "both")
 
 
-def run_one(workload, kind, code, at, tape, sched, detail, dry=False, faulty=False, cancel_after=None, prefail=False, rst_delay=0.3):
+def run_one(workload, kind, code, at, tape, sched, detail, dry=False, faulty=False, cancel_after=None, prefail=False, rst_delay=0.3, hist=None):
     sock = workload == "startup"
     if faulty:
         # link faults (and read chunking, NCP window) until the injection; the failure itself is then delivered over a clean line
@@ -219,7 +230,34 @@ def run_one(workload, kind, code, at, tape, sched, detail, dry=False, faulty=Fal
             probe("failure_before_registration")
             nash.force_error(0x51)
             await asyncio.sleep(0.05)
-        ez.add_callback(cb)
+        if hist and not dry:
+            probe("registry_history." + hist)
+
+            def scan():
+                return ez.startScan(scanType=t.EzspNetworkScanType.ENERGY_SCAN, channelMask=t.Channels.from_channel_list([11, 15]), duration=1)
+
+            others = []
+            if hist in ("churn", "both"):
+                others.append(ez.add_callback(lambda *a: None))
+                others.append(ez.add_callback(lambda *a: None))
+                ez.remove_callback(others.pop(0))
+            if hist in ("overlap", "both"):
+                running = loop.create_task(scan(), name="scan-during-registration")
+                await asyncio.sleep(0.004)  # the scan's temporary callback is registered, its results are still to come
+                ez.add_callback(cb)
+                await running
+                await scan()
+                await scan()
+            else:
+                ez.add_callback(cb)
+            if hist in ("churn", "both"):
+                ids = [ez.add_callback(lambda *a: None) for _ in range(3)]
+                for i in (ids[1], others.pop(), ids[0]):
+                    ez.remove_callback(i)
+                await scan()
+                ez.remove_callback(ids[2])
+        else:
+            ez.add_callback(cb)
         await asyncio.sleep(0.1)
         st["t_ready"] = loop.time()
         t0 = loop.time()
